@@ -574,6 +574,7 @@ fn run_inner(h: &History, cfg: &RunCfg) -> Outcome {
     w(|w| {
         w.trace_on = cfg.trace;
         w.allow_update_disabled = h.profile == "C07" || h.profile == "C05";
+        w.matrix = h.profile == "C08";
     });
     calloop::verif::set_yield_hook(Some(hist_hook));
     let mut steps_run = 0;
